@@ -211,7 +211,9 @@ func NewBlockFromBytes(serializedBlock []byte) (*Block, error) {
 	if err != nil {
 		return nil, err
 	}
-	b.serializedBlock = serializedBlock
+	// Only the bytes consumed by the deserialization are the serialized
+	// block; anything after them is not part of it.
+	b.serializedBlock = serializedBlock[:len(serializedBlock)-br.Len()]
 	return b, nil
 }
 
